@@ -31,7 +31,7 @@ def claimedOfMethods (n : Names) (blocks : List LBlock) (fuel : Nat) :
     List Method → Int → List String → M (List Claimed)
   | [], _, _ => pure []
   | m :: ms, offset, stack => do
-    let cur := offset + m.address
+    let cur ← ck (offset + m.address)
     let (count, stride, repeated) : Nat × Int × Bool := match m.repeat_ with
       | none => (1, 0, false)
       | some r => (r.count, r.stride, true)
@@ -42,10 +42,12 @@ def claimedOfMethods (n : Names) (blocks : List LBlock) (fuel : Nat) :
           | some b => pure b | none => throw (.panic "block_expect")
         claimedOfRepeats n blocks fuel sub cur stride (n.collision target) stack count 0
       | k =>
-        pure ((List.range count).map fun i =>
-          { name := "::".intercalate (stack ++ [n.collision m.name]),
-            repeatIndex := if repeated then some i else none,
-            address := cur + (i : Int) * stride, allowOverlap := m.allowAddressOverlap, kind := k })
+        (List.range count).mapM fun (i : Nat) => do
+          let step ← ck ((i : Int) * stride)
+          let address ← ck (cur + step)
+          pure { name := "::".intercalate (stack ++ [n.collision m.name]),
+                 repeatIndex := if repeated then some i else none,
+                 address := address, allowOverlap := m.allowAddressOverlap, kind := k }
     let rest ← claimedOfMethods n blocks fuel ms offset stack
     pure (here ++ rest)
 
@@ -53,9 +55,11 @@ def claimedOfRepeats (n : Names) (blocks : List LBlock) (fuel : Nat) (sub : LBlo
     (display : String) (stack : List String) : Nat → Nat → M (List Claimed)
   | 0, _ => pure []
   | remaining + 1, i => do
+    let step ← ck ((i : Int) * stride)
+    let base ← ck (cur + step)
     let here ← match fuel with
       | 0 => throw (.abort "block_lookup_cycle")
-      | f + 1 => claimedOfMethods n blocks f sub.methods (cur + (i : Int) * stride)
+      | f + 1 => claimedOfMethods n blocks f sub.methods base
                    (stack ++ [s!"{display} (index: {i})"])
     let rest ← claimedOfRepeats n blocks fuel sub cur stride display stack remaining (i + 1)
     pure (here ++ rest)
